@@ -240,13 +240,18 @@ def getitem(I, a, idx):
         raise Unsupported("indexing a symbolic-length ndarray")
     if not isinstance(idx, tuple):
         idx = (idx,)
-    if isinstance(idx[0] if idx else None, NdArr) and idx[0].dtype == "bool" and len(idx) == 1:
-        mask = idx[0].data
+    idx = _masks_to_positions(I, a, idx)
+    if len(idx) == 1 and isinstance(idx[0], _Positions):
         out = []
-        for row, m in zip(a.data, mask):
-            if I.st.branch(I.truth(m), "mask"):
-                out.append(row)
-        return mk(out, a.dtype)
+        for pos in idx[0].pos:
+            d = a.data
+            for p_ in pos:
+                d = d[p_]
+            out.append(d)
+        r_ = mk(out, a.dtype)
+        if not out:
+            r_.tail = (0,) + tuple(a.tail[idx[0].ndim:])
+        return r_
 
     def rec(d, ix):
         if not ix:
@@ -276,13 +281,71 @@ def getitem(I, a, idx):
     return r
 
 
+class _Positions:
+    """the True positions of an n-d boolean mask used as the only index (row-major order)"""
+    def __init__(self, pos, ndim):
+        self.pos, self.ndim = pos, ndim
+
+
+def _is_boolarr(x):
+    return isinstance(x, NdArr) and x.data is not None and (x.dtype == "bool" or (flat(x.data) and all(
+        isinstance(e, bool) or (isinstance(e, SV) and e.ty == "bool") for e in flat(x.data))))
+
+
+def _masks_to_positions(I, a, idx):
+    """boolean masks select data-dependent positions: decided by path splitting on each mask element (shapes stay concrete)"""
+    if not any(_is_boolarr(i) for i in idx):
+        return idx
+    if len(idx) == 1:
+        m = idx[0]
+        if tuple(m.tail) != tuple(a.tail[:len(m.tail)]):
+            I.raise_py("IndexError", "boolean index did not match indexed array")
+        pos = [p_ for p_ in itertools.product(*[range(n) for n in m.tail])]
+        sel = []
+        for p_ in pos:
+            d = m.data
+            for q in p_:
+                d = d[q]
+            if I.st.branch(I.truth(d), "mask"):
+                sel.append(p_)
+        return (_Positions(sel, len(m.tail)),)
+    out = []
+    for ax, i in enumerate(idx):
+        if _is_boolarr(i):
+            if len(i.tail) != 1:
+                raise Unsupported("n-d boolean mask mixed with other indices")
+            out.append(ListV([j for j, e in enumerate(i.data) if I.st.branch(I.truth(e), "mask")]))
+        else:
+            out.append(i)
+    return tuple(out)
+
+
 def setitem(I, a, idx, v):
     if a.data is None:
         raise Unsupported("assignment into a symbolic-length ndarray")
     if not isinstance(idx, tuple):
         idx = (idx,)
-    if len(idx) == 1 and isinstance(idx[0], NdArr) and idx[0].dtype == "bool":
-        raise Unsupported("boolean mask assignment")
+    idx = _masks_to_positions(I, a, idx)
+    if len(idx) == 1 and isinstance(idx[0], _Positions):
+        P_ = idx[0]
+        if len(a.tail) != P_.ndim:
+            raise Unsupported("boolean mask assignment of sub-arrays")
+        dv = v.data if isinstance(v, NdArr) else to_data(I, v)
+        if isinstance(dv, list):
+            fl = flat(dv)
+            if len(fl) != len(P_.pos):
+                if len(fl) == 1:
+                    fl = fl * len(P_.pos)
+                else:
+                    I.raise_py("ValueError", f"NumPy boolean array indexing assignment cannot assign {len(fl)} input values to the {len(P_.pos)} output values where the mask is true")
+        else:
+            fl = [dv] * len(P_.pos)
+        for pos, val in zip(P_.pos, fl):
+            d = a.data
+            for p_ in pos[:-1]:
+                d = d[p_]
+            d[pos[-1]] = val
+        return
     # positions selected
     shp = a.tail
     sel_axes = []
@@ -689,8 +752,25 @@ def install(I, mkcls, meth):
         arr = asarray(i, a[0])
         axis = k.get("axis", a[1] if len(a) > 1 else None)
         w = k.get("weights")
+        arr = mk(_map(arr.data, lambda x: _num(i, x)), "float") if flat(arr.data) else arr
         if w is not None:
-            raise Unsupported("np.average with weights")
+            wv = flat(asarray(i, w).data)
+            if axis is None:
+                if len(arr.tail) != 1:
+                    raise Unsupported("np.average with weights and axis=None on an n-d array")
+                axis = 0
+            if len(wv) != arr.tail[axis]:
+                i.raise_py("ValueError", "Length of weights not compatible with specified axis.")
+            tot = reduce_sum(i, wv)
+            if isinstance(tot, SV):
+                if i.st.branch(to_z3(tot, "real") == 0, "weights-sum-to-zero"):
+                    i.raise_py("ZeroDivisionError", "Weights sum to zero, can't be normalized")
+            elif tot == 0:
+                i.raise_py("ZeroDivisionError", "Weights sum to zero, can't be normalized")
+            if size(arr.tail) == 0:
+                rest = arr.tail[:axis] + arr.tail[axis + 1:]
+                return mk(build(rest, []))
+            return reduce_axis(i, arr, axis, lambda xs: scalar_op(i, ast.Div(), reduce_sum(i, [i.binop(ast.Mult(), ww, xx) for ww, xx in zip(wv, xs)]), tot))
         if axis is None:
             fl = flat(arr.data)
             if not fl:
@@ -717,13 +797,84 @@ def install(I, mkcls, meth):
         return bj
 
     reg("fromiter")(lambda i, a, k: mk(list(i.iterate(a[0])), norm_dtype(k.get("dtype", a[1] if len(a) > 1 else None))))
-    reg("any")(lambda i, a, k: METHODS["any"](i, asarray(i, a[0]), [], {}))
-    reg("all")(lambda i, a, k: METHODS["all"](i, asarray(i, a[0]), [], {}))
+    def _anyall(which):
+        def fn(i, a, k):
+            arr = asarray(i, a[0])
+            axis = k.get("axis", a[1] if len(a) > 1 else None)
+            if axis is None:
+                return METHODS[which](i, arr, [], {})
+            comb = i.or_ if which == "any" else i.and_
+            r = reduce_axis(i, arr, axis, lambda xs: i.wrap_bool(comb(*[i.truth(x) for x in xs])))
+            if isinstance(r, NdArr):
+                r.dtype = "bool"
+            return r
+        return fn
+    reg("any")(_anyall("any"))
+    reg("all")(_anyall("all"))
+
+    def _num(i, x):
+        """bool -> number, as numpy does in arithmetic reductions"""
+        if isinstance(x, bool):
+            return 1.0 if x else 0.0
+        if isinstance(x, SV) and x.ty == "bool":
+            return SV(z3.If(x.z, z3.RealVal(1), z3.RealVal(0)), "real")
+        return x
+
+    @reg("take")
+    def _take(i, a, k):
+        if k.get("axis") is not None or len(a) > 2:
+            raise Unsupported("np.take with axis")
+        src = flat(asarray(i, a[0]).data)
+        n = len(src)
+
+        def one(j):
+            if isinstance(j, SV):
+                zj = to_z3(j, "int")
+                if i.st.branch(z3.Or(zj < -n, zj >= n), "take-out-of-range"):
+                    i.raise_py("IndexError", "index out of range for np.take")
+                zj = z3.If(zj < 0, zj + n, zj)
+                if all(num_kind(x) for x in src):
+                    w = "real" if any(num_kind(x) == "real" for x in src) else "int"
+                    e = to_z3(src[-1], w)
+                    for p_ in range(n - 2, -1, -1):
+                        e = z3.If(zj == p_, to_z3(src[p_], w), e)
+                    return SV(e, w)
+                for p_ in range(n):
+                    if i.st.branch(zj == p_, "take-index"):
+                        return src[p_]
+                raise PathEnd("unreachable take index")
+            return src[i.norm_index(j, n)]
+        ix = a[1]
+        if isinstance(ix, NdArr):
+            r_ = mk(_map(ix.data, one))
+            if not flat(ix.data):
+                r_.tail = tuple(ix.tail)
+            return r_
+        if isinstance(ix, (ListV, tuple)):
+            return mk([one(j) for j in i.iterate(ix)])
+        return one(ix)
+
+    @reg("max")
+    def _max(i, a, k):
+        if k.get("axis") is not None or len(a) > 1:
+            raise Unsupported("np.max with axis")
+        fl = flat(asarray(i, a[0]).data)
+        if not fl:
+            i.raise_py("ValueError", "zero-size array to reduction operation maximum which has no identity")
+        best = fl[0]
+        for x in fl[1:]:
+            if type(best) in (int, float) and type(x) in (int, float):
+                best = max(best, x)
+            else:
+                zb, zx = to_z3(best, "real"), to_z3(x, "real")
+                best = SV(z3.If(zx > zb, zx, zb), "real")
+        return best
+    E["numpy.amax"] = E["numpy.max"]
     reg("isnan")(lambda i, a, k: is_nan(a[0]) if not isinstance(a[0], NdArr) else mk(_map(a[0].data, is_nan), "bool"))
     reg("radians")(lambda i, a, k: i.binop(ast.Mult(), a[0], math.pi / 180))
     reg("allclose")(lambda i, a, k: (_ for _ in ()).throw(Unsupported("np.allclose")))
     for fn in ("arctan2", "arccos", "arctan", "sin", "cos", "linalg.svd", "linalg.inv", "random.rand", "linspace", "meshgrid",
-               "column_stack", "take", "max", "arange"):
+               "column_stack", "arange"):
         E.setdefault(f"numpy.{fn}", Builtin(f"np.{fn}", (lambda name: lambda i, a, k: i.np_hook(name, a, k))(fn), T))
 
     def _frombuffer(i, a, k):
